@@ -548,6 +548,17 @@ def scale_texts():
             w /= int(t)
         out.append(("chains-%d" % n, "@print %s\n@print %s\n@print %s\n@sealed\n" % (" - ".join(terms), " / ".join(terms), " + ".join("%s * %s" % (a, b) for a, b in zip(terms, terms[1:]))),
                     [(1, v), (2, w), (3, Fraction(sum(int(a) * int(b) for a, b in zip(terms, terms[1:]))))]))
+    # magnitudes far outside the range of a double, as final and as intermediate results (exact rational arithmetic has no range)
+    big = [
+        ("2 ** 1024", Fraction(2**1024)), ("10 ** 309 + 1", Fraction(10**309 + 1)), ("2 ** 1030 / 2 ** 1027", Fraction(8)), ("(10 ** 400 + 1) % 10 ** 400", Fraction(1)),
+        ("1e308 * 10", Fraction(10**309)), ("1e400 / 1e399", Fraction(10)), ("2 ** 1024 - 2 ** 1024", Fraction(0)), ("1 / 2 ** 1100 * 2 ** 1100", Fraction(1)),
+        ("{2 ** 1024, 1}.max", Fraction(2**1024)), ("2 ** -1100", Fraction(1, 2**1100)), ("(2 ** 600) * (2 ** 600)", Fraction(2**1200)), ("2 ** 2 ** 10", Fraction(2**1024)),
+        ("-(2 ** 1100) // 3", Fraction((-(2**1100)) // 3)), ("(2 ** 1100 + 1) / 2", Fraction(2**1100 + 1, 2)), ("1e-400 * 1e400", Fraction(1)), ("0x1_0000 ** 65", Fraction(2**1040)),
+        ("-1e309", Fraction(-(10**309))), ("+(3 ** 700)", Fraction(3**700)), ("2 ** 1023 + 2 ** 1022", Fraction(2**1023 + 2**1022)), ("2 ** 1023 * 2", Fraction(2**1024)),
+    ]
+    out.append(("magnitudes", "".join("@print %s\n" % e for e, _ in big) + "@sealed\n", [(i + 1, v) for i, (_, v) in enumerate(big)]))
+    cmp_ = [("2 ** 1024 == 2 ** 1024", True), ("2 ** 1024 > 2 ** 1024 - 1", True), ("1e309 < 1e308", False), ("2 ** 1024 + 0.5 != 2 ** 1024", True), ("10 ** 400 / 10 ** 400 == 1", True), ("2 ** -1100 > 0", True)]
+    out.append(("magnitudes-compared", "".join("@print %s\n" % e for e, _ in cmp_) + "@sealed\n", [(i + 1, v) for i, (_, v) in enumerate(cmp_)]))
     return out
 
 
@@ -564,7 +575,7 @@ def check_scale(case, R):
             pv = parse_printed(got[line])
         except Exception:  # noqa
             pv = {"unparsable": got.get(line)}
-        if pv != {"q": [v.numerator, v.denominator]}:
+        if pv != ({"bool": v} if isinstance(v, bool) else {"q": [v.numerator, v.denominator]}):
             R.violation("value-differs:scale:" + name.rsplit("-", 1 if "service" not in name and "message" not in name else 2)[0], "the result equals the mathematical value (identifiers denote the constants of their own section)", {**case, "name": name, "line": line}, observed=got.get(line), expected=str(v))
             return
     R.outcome("scale-ok")
